@@ -48,6 +48,36 @@ def compare_headers(ctx, sgz, src_view, mode, desc, hyp):
                     if a.shape != want.shape or not np.array_equal(a, want):
                         ctx.fail(f'{mode}: tracefield array {int(k)} differs from the source', desc)
                         return
+    # the file headers through the accessors, also on an object that has exported the file before (the export may have to
+    # touch the format code of its own copy: the stored header, and what the accessors return, stay the source's)
+    from seismic_zfp.conversion import SgzConverter
+    with segyio.open(src_view['path'], strict=False) as fy:
+        want_bin = {int(k): int(v) for k, v in fy.bin.items()}
+    with SgzReader(sgz) as r0:
+        # (the accessor returns the textual header decoded from EBCDIC: compared with what a fresh reader returns for the
+        #  stored bytes, which are compared with the source's above)
+        want_text = bytes(r0.get_file_text_header()[0])
+    for export_first in (False, True):
+        try:
+            with SgzConverter(sgz) as c:
+                if export_first:
+                    try:
+                        env.quiet(c.convert_to_segy, ctx.path('hdr_export.sgy'))
+                    except Exception:  # noqa
+                        # (whether this file can be exported is C06's matter -- an irregular survey converted with
+                        #  'strip' has no inline numbers to find its traces by; C04 is about what is read afterwards)
+                        ctx.stats['export_before_header_read_failed'] += 1
+                got_text = bytes(c.get_file_text_header()[0])
+                got_bin = {int(k): int(v) for k, v in dict(c.get_file_binary_header()).items()}
+        except Exception as e:  # noqa
+            ctx.fail(f'file header accessors{" after an export" if export_first else ""} raised {type(e).__name__}: {str(e)[:80]}', desc)
+            continue
+        if got_text != want_text:
+            ctx.fail(f'textual file header{" after an export from the same object" if export_first else ""} differs from what a fresh reader returns', desc)
+        if got_bin != want_bin:
+            d = {k: (got_bin.get(k), v) for k, v in want_bin.items() if got_bin.get(k) != v}
+            ctx.fail(f'binary file header{" after an export from the same object" if export_first else ""} differs from the source: '
+                     f'{dict(list(d.items())[:3])}', desc)
     # emulator: header[i]
     if mode != 'strip' and (mode != 'heuristic' or hyp):
         with seismic_zfp.open(sgz) as f:
@@ -145,10 +175,16 @@ def segy_route(ctx, rng, k):
             for c, w in zip((115, 117), wide):
                 u = {'const': 40000, 'vary': 32768 + 7 * t, 'last': 65535 if t == ntr - 1 else 6}[w]
                 mksegy.patch_trace_header_bytes(sgy, t, n[2], c, u - 65536 if u >= 32768 else u)
+    int_samples = bool(rng.random() < .25)
+    if int_samples:
+        # a SEG-Y with 4-byte integer samples (format code 2): the same bytes, read as two's-complement integers
+        with open(sgy, 'r+b') as f:
+            f.seek(3224)
+            f.write((2).to_bytes(2, 'big'))
     src = view.segy_view(sgy)
     hyp = segycases.heuristic_hypothesis(src['headers']) if len(src['headers']) == src['tracecount'] else False
     for mode in MODES:
-        desc = {'kind': kind, 'n': n, 'traces': ntr, 'mode': mode, 'plan': [(c, kk) for c, kk, _ in plan.plan], 'blank_trace': blank, 'wide_115_117': wide,
+        desc = {'kind': kind, 'n': n, 'traces': ntr, 'mode': mode, 'plan': [(c, kk) for c, kk, _ in plan.plan], 'blank_trace': blank, 'wide_115_117': wide, 'integer_samples': int_samples,
                 'il': il[:2], 'xl': xl[:2], 'heuristic_hypothesis': hyp}
         ctx.case((kind, n, mode, tuple(desc['plan']), tuple(il[:2]), tuple(xl[:2])), sample=desc)
         ctx.stats['mode_' + mode] += 1
